@@ -7,7 +7,7 @@
        are unreachable. *)
 From Coq Require Import List NArith ZArith QArith Qcanon Bool Lia.
 From ACB Require Import Base.Outcome Base.QcExtra Base.Fit Base.Arith Model.Tx Model.Ledger Model.Sfl
-     Model.DeltaList Proofs.Tactics Proofs.C04Inv Proofs.C02Scan.
+     Model.DeltaList Proofs.Tactics Proofs.AllAfter Proofs.C04Inv Proofs.C02Scan.
 Import ListNotations.
 Local Open Scope Qc_scope.
 
@@ -34,7 +34,8 @@ Proof.
   destruct (t_act t) as [n price com rate crate | n price com rate crate sp | amount rate
                         | n amount | post pre_ io].
   - bind_as H as nsh E1. apply gez_add_exact in E1 as [-> _].
-    bind_as H as nall E2. apply gez_add_exact in E2 as [-> _].
+    rewrite all_after_exact in H. cbn [bind] in H.
+    bind_as H as nall E2. apply gez_unwrap_ok in E2 as [-> _].
     destruct (s_acb pre).
     + bind_as H as v E3. bind_as H as c E4. bind_as H as pr E5. bind_as H as nacb E6.
       inversion H; subst d; cbn. ring.
@@ -49,7 +50,7 @@ Proof.
     bind_as H as m E1. bind_as H as amt E2. bind_as H as nacb E3.
     inversion H; subst d; cbn. ring.
   - bind_as H as m E0. bind_as H as qd E1. bind_as H as nsh E2.
-    cbn [a_sub a_add exact bind] in H.
+    rewrite all_after_exact in H. cbn [bind] in H.
     destruct (Qcltb _ _); [discriminate|]. destruct (_ && _); [discriminate|].
     inversion H; subst d; cbn. ring.
 Qed.
@@ -67,7 +68,12 @@ Proof.
        assert (Hc : sc_all c = s_all (next_pre_status st (t_af t)) - n /\
                     sc_sh c = s_sh (next_pre_status st (t_af t)) - n).
        { unfold sell_core in Ec. cbn [a_sub exact bind] in Ec.
-         destruct (Qcltb _ 0); [discriminate|]. destruct (Qcltb _ 0); [discriminate|].
+         destruct (Qcltb _ 0); [discriminate|].
+         rewrite all_after_exact in Ec. cbn [bind] in Ec.
+         replace (s_all (next_pre_status st (t_af t)) +
+                  (s_sh (next_pre_status st (t_af t)) - n - s_sh (next_pre_status st (t_af t))))
+           with (s_all (next_pre_status st (t_af t)) - n) in Ec by ring.
+         destruct (Qcltb _ 0); [discriminate|].
          bind_as Ec as maps Em. destruct maps.
          - bind_as Ec as nacb E1. bind_as Ec as v E2. bind_as Ec as cm E3.
            cbn [a_sub a_mul exact bind] in Ec. inversion Ec; subst c; cbn. auto.
@@ -92,14 +98,14 @@ Proof.
   pose proof (delta_all_exact _ _ _ _ _ _ H) as Hall.
   pose proof (delta_for_tx_ok exact _ _ _ _ _ _ H Hst) as [Htx (Hok & Hreg & Hnreg)].
   rewrite Htx in Hreg, Hnreg.
-  unfold set_latest. cbn [a_add a_sub exact bind]. fold (last_sh st (t_af t)).
+  unfold set_latest. fold (last_sh st (t_af t)). rewrite all_after_exact. cbn [bind].
   assert (E1 : Bool.eqb (af_reg (t_af t)) (is_none (s_acb (d_post d))) = true).
   { destruct (af_reg (t_af t)) eqn:Er.
     - destruct (Hreg eq_refl) as [-> _]. reflexivity.
     - specialize (Hnreg eq_refl). destruct (s_acb (d_post d)); [reflexivity | congruence]. }
   rewrite E1. cbn [negb].
-  destruct (Qceqb_spec (s_all (d_post d)) (s_sh (d_post d) + ps_all st - last_sh st (t_af t))) as [_|Hn];
-    [|contradiction].
+  destruct (Qceqb_spec (s_all (d_post d)) (ps_all st + (s_sh (d_post d) - last_sh st (t_af t)))) as [_|Hn];
+    [|contradiction Hn; rewrite Hall; ring].
   cbn [negb]. eexists. reflexivity.
 Qed.
 
